@@ -629,6 +629,7 @@ func (f *vfFix) run(c vfCfg, script []string) vfRes {
 	var fails []string
 	// (1) bound: every attempt consumes one of maxReplicaAttempt units of some replica
 	cnt := [3]int{}
+	rearmed := [3]int{}
 	rearm := 0
 	ai := 0
 	for _, e := range r.events {
@@ -639,15 +640,18 @@ func (f *vfFix) run(c vfCfg, script []string) vfRes {
 		cnt[idx]++
 		if ai < len(script) && len(script[ai]) == 2 && script[ai][0] == 'N' && script[ai][1] >= '0' && script[ai][1] <= '2' {
 			k := int(script[ai][1] - '0')
-			if cnt[k] >= vfMaxAttempt {
+			// onUpdateLeader(maxRearm = replicas-1): an exhausted replica gets one more chance at most replicas-1 times
+			if cnt[k] >= vfMaxAttempt && rearmed[k] < 2 {
 				cnt[k] = vfMaxAttempt - 1
+				rearmed[k]++
 				rearm++
 			}
 		}
 		ai++
 	}
-	if r.attempts > vfMaxAttempt*3 {
-		fails = append(fails, fmt.Sprintf("bound:attempts=%d>%d,rearms=%d,sleep=%d", r.attempts, vfMaxAttempt*3, rearm, total))
+	// C10_bounded: attempts <= 10*replicas + re-arms, re-arms <= replicas*(replicas-1)
+	if r.attempts > vfMaxAttempt*3+rearm {
+		fails = append(fails, fmt.Sprintf("bound:attempts=%d>%d+%d,sleep=%d", r.attempts, vfMaxAttempt*3, rearm, total))
 	}
 	if r.capped {
 		fails = append(fails, "cap")
@@ -875,7 +879,7 @@ func vfDirected() [][]string {
 		return s
 	}
 	return [][]string{
-		rep([]string{"N1", "N0"}, 30), // F10: NotLeader-with-hint ping-pong
+		rep([]string{"N1", "N0"}, 30), // regression for F10 (fixed by cb7d671): hint ping-pong must end with the pseudo region error
 		rep([]string{"N1", "N2", "N0"}, 20),
 		rep([]string{"Er"}, 40), rep([]string{"Eu"}, 40), rep([]string{"B0"}, 40), rep([]string{"B1"}, 40),
 		rep([]string{"NL"}, 40), rep([]string{"MT"}, 40), rep([]string{"DF"}, 40), rep([]string{"SC"}, 40),
